@@ -358,7 +358,11 @@ class C12(core.Check):
                 if singles:
                     steps.append(["add", rng.choice(singles)])  # the same object once more
             elif r < 0.19 and added:
-                steps.append(["del", rng.choice(added)])
+                if n_ent < len(ents) and rng.random() < 0.2:
+                    # an operation of an entity that is added later: add() and delete() only collect input for assemble()
+                    steps.append(["del", rng.choice(ents[rng.randrange(n_ent, len(ents))])])
+                else:
+                    steps.append(["del", rng.choice(added)])
             elif r < 0.27:
                 steps.append(["asm"])
             elif r < 0.37:
@@ -377,6 +381,16 @@ class C12(core.Check):
                 steps.append(["mv", rng.randrange(1000), [round(origin[d] + scale * p[d], 6) for d in range(3)]])
                 if rng.random() < 0.6:
                     steps.append(["bkp"])
+            elif r < 0.545:
+                # one vertex is put where another one is (the position handed over as the other vertex' numpy array),
+                # then shifted from there
+                move_no += 1
+                r1 = rng.randrange(1000)
+                steps.append(["mvto", r1, rng.randrange(1000)])
+                if True:  # always: two vertices of one block at the same place would give an edge of length zero (no grading)
+                    steps.append(["tr", r1, [round(scale * (0.11 + 0.013 * move_no), 6), round(-scale * 0.07, 6), round(scale * 0.05, 6)]])
+                if rng.random() < 0.8:
+                    steps.append(["bkp"])
             elif r < 0.57:
                 # a small adjustment of one coordinate (a few thousandths, whatever the size of the model)
                 move_no += 1
@@ -389,7 +403,8 @@ class C12(core.Check):
                 st = rng.choice([None, None, [], ["neighbourPatch pb"], ["transform none", "k v"]])
                 steps.append(["mod", rng.choice(names), rng.choice(["wall", "patch", "cyclic", "empty"]), st])
             elif r < 0.70:
-                steps.append(["def", rng.choice(["dflt", "rest"]), rng.choice(["wall", "patch"])])
+                # now and then the default patch is named like a patch of the model (which may be gone by the time of writing)
+                steps.append(["def", rng.choice(["dflt", "rest"] + names), rng.choice(["wall", "patch"])])
             elif r < 0.74:
                 # a searchable surface added by the user (faces / corners of the cases are projected to g0..g2)
                 steps.append(
@@ -416,12 +431,50 @@ class C12(core.Check):
             steps.append(["wr"])
         return steps
 
+    def _prop_case(self, rng: random.Random) -> dict:
+        d = rng.randrange(3)  # the row runs along this direction
+        n_ops = rng.randint(2, 3)
+        frame = [[0.0, 0.0, 0.0], 1.0]
+        counts = {}
+        for g in range(3):
+            per = []
+            for _ in range(3):
+                if g != d and rng.random() < 0.8:
+                    a = rng.randint(1, 4)
+                    b = a + rng.randint(1, 3)
+                    r = rng.choice([0.25, 0.3, 0.5])
+                    per.append([[r, a], [1.0 - r, b]] if rng.random() < 0.5 else [[r, b], [1.0 - r, a]])
+                else:
+                    per.append([[1.0, rng.randint(1, 5)]])
+            # across the row the divisions are the same for every block
+            counts[str(g)] = per if g == d else [per[0]] * 3
+        ops = []
+        for i in range(n_ops):
+            cell = [0, 0, 0]
+            cell[d] = i
+            spec: Dict[str, Any] = {"id": i, "cell": cell, "rot": rng.randrange(24), "frame": frame, "patches": {}}
+            if i > 0:
+                rot = ROT[spec["rot"]]
+                spec["unchop"] = [a for a in range(3) if rot[a][0] != d]
+            if rng.random() < 0.3:
+                spec["patches"] = {rng.choice(SIDES): rng.choice(["pa", "pb"])}
+            ops.append(spec)
+        order = list(range(n_ops))
+        if rng.random() < 0.4:
+            rng.shuffle(order)  # the chopped block need not be the first in the depot
+        steps = [["add", e] for e in order] + [["wr"], ["wr"], ["wr"], ["clr"], ["asm"], ["wr"], ["bkp"], ["wr"], ["wr"]]
+        return {"kind": "prop", "ops": ops, "counts": counts, "entities": [[i] for i in range(n_ops)], "frame": frame, "steps": steps}
+
     def gen_cases(self, rng: random.Random, tier: str) -> List[dict]:
         n = 220 if tier == "quick" else 4000
         cases = []
         for _ in range(n):
             model = self._model(rng, rng.randint(1, 5))
             cases.append({"kind": "hist", **model, "steps": self._history(rng, model, 14 if tier == "quick" else 20)})
+        # gradings handed on between blocks: a row of blocks, only the first one chopped across the row, multigrading,
+        # any mutual orientation; the same mesh is written several times and re-assembled (oracle only, no model)
+        for _ in range(24 if tier == "quick" else 300):
+            cases.append(self._prop_case(rng))
         # rejected calls / boundary
         for _ in range(12 if tier == "quick" else 120):
             model = self._model(rng, rng.randint(1, 3))
@@ -457,6 +510,8 @@ class C12(core.Check):
                 chops = local_chops(specs[i], case["counts"])
                 if "nochop" in specs[i]:
                     chops[specs[i]["nochop"]] = []
+                for a in specs[i].get("unchop", []):
+                    chops[a] = []  # this axis takes its divisions from the neighbouring block
                 ops[i] = build_op(specs[i], corner_positions(specs[i]), chops)
             return ops[i]
 
@@ -485,13 +540,20 @@ class C12(core.Check):
                 elif st[0] == "clr":
                     mesh.clear()
                 elif st[0] == "bkp":
-                    before = [v.position.tolist() for v in mesh.vertices]
+                    # which vertices (by index) every block is made of, and the operation it belongs to
+                    op_index = {id(op): i for i, op in ops.items()}
+                    pre = [
+                        [op_index.get(id(op), -1), [int(v.index) for v in block.vertices]]
+                        for block, op in zip(mesh.blocks, getattr(mesh, "assembled", []))
+                    ]
                     try:
                         mesh.backport()
-                        o = {"ok": {str(i): [[float(x) for x in p] for p in op.point_array] for i, op in sorted(ops.items())}}
+                        o = {
+                            "ok": {str(i): [[float(x) for x in p] for p in op.point_array] for i, op in sorted(ops.items())},
+                            "pre": pre,
+                        }
                     except Exception as e:
                         o = {"err": type(e).__name__}
-                    del before
                 elif st[0] == "mv":
                     nv = len(mesh.vertices)
                     if nv:
@@ -506,6 +568,24 @@ class C12(core.Check):
                         new = [old[d] + st[2][d] for d in range(3)]
                         o = {"moved": old, "index": st[1] % nv, "to": new}
                         v.move_to(new)
+                elif st[0] == "mvto":
+                    nv = len(mesh.vertices)
+                    if nv:
+                        v1, v2 = mesh.vertices[st[1] % nv], mesh.vertices[st[2] % nv]
+                        o = {
+                            "moved": [float(x) for x in v1.position],
+                            "index": st[1] % nv,
+                            "onto": st[2] % nv,
+                            "to": [float(x) for x in v2.position],
+                        }
+                        v1.move_to(v2.position)  # a float numpy array that stays alive
+                elif st[0] == "tr":
+                    nv = len(mesh.vertices)
+                    if nv:
+                        v = mesh.vertices[st[1] % nv]
+                        old = [float(x) for x in v.position]
+                        o = {"moved": old, "index": st[1] % nv, "to": [old[d] + st[2][d] for d in range(3)]}
+                        v.translate(st[2])
                 elif st[0] == "mod":
                     mesh.modify_patch(st[1], st[2], None if st[3] is None else list(st[3]))
                 elif st[0] == "def":
@@ -540,7 +620,7 @@ class C12(core.Check):
         asm_ops: List[int] = []  # operations with a block
         assembled = False
         pending = False  # add / delete / merge since the last assembly
-        moves: List[Tuple[List[float], List[float]]] = []  # (old, new) since the last assembly
+        moves: Dict[int, List[float]] = {}  # vertex index -> position it was moved to since the last assembly
         dup = False  # the same object added twice (sticky)
         twice = False  # assembled twice without clear (until the next clear / backport)
         mods: Dict[str, list] = {}
@@ -588,7 +668,7 @@ class C12(core.Check):
                 else:
                     do_assemble()
             elif st[0] == "clr":
-                assembled, asm_ops, moves, pending, twice = False, [], [], False, False
+                assembled, asm_ops, moves, pending, twice = False, [], {}, False, False
             elif st[0] == "mrg":
                 merges.append([st[1], st[2]])
                 pending = pending or assembled
@@ -604,23 +684,29 @@ class C12(core.Check):
                 geometry = {**geometry, st[1]: list(st[2])}
             elif st[0] == "mv":
                 if isinstance(o, dict) and "moved" in o:
-                    moves.append((o["moved"], st[2]))
-            elif st[0] == "nudge":
+                    moves[o["index"]] = list(st[2])
+            elif st[0] in ("nudge", "tr"):
                 if isinstance(o, dict) and "moved" in o:
-                    moves.append((o["moved"], o["to"]))
+                    base = moves.get(o["index"], o["moved"])
+                    moves[o["index"]] = [base[d] + st[2][d] for d in range(3)]
+            elif st[0] == "mvto":
+                if isinstance(o, dict) and "moved" in o:
+                    moves[o["index"]] = list(moves.get(o["onto"], o["to"]))
             elif st[0] == "bkp":
                 if isinstance(o, dict) and "ok" in o:
                     # expected: corners of the operations that have a block follow the moved vertices
-                    if merges or weird_before:
-                        # a point can carry several vertices then (or blocks exist twice); the implementation's word is
-                        # taken for the geometry (the correspondence with the model still checks it)
+                    if weird_before:
+                        # blocks exist twice / an object is in the depot twice: the implementation's word is taken for the
+                        # geometry (the correspondence with the model still checks it)
                         for i in asm_ops:
                             pos[i] = [list(p) for p in o["ok"][str(i)]]
                     else:
-                        for old, new in moves:
-                            for i in set(asm_ops):
-                                pos[i] = [list(new) if max(abs(a - b) for a, b in zip(p, old)) < 1e-6 else p for p in pos[i]]
-                    moves = []
+                        # every corner follows the vertex (by index) its block holds there; a vertex that was not moved is
+                        # where the operation's corner was when the vertex was created
+                        for i, vidx in o.get("pre", []):
+                            if i in pos:
+                                pos[i] = [list(moves.get(v, pos[i][c])) for c, v in enumerate(vidx)]
+                    moves = {}
                     twice = False
                     do_assemble()
             elif st[0] == "wr":
@@ -665,6 +751,8 @@ class C12(core.Check):
                         continue
                     spec = case["ops"][i]
                     chops = local_chops(spec, case["counts"])
+                    for a in spec.get("unchop", []):
+                        chops[a] = []
                     mesh.add(build_op(spec, sh["pos"][i], chops))
                 for name, props in sh["geometry"].items():
                     mesh.add_geometry({name: props})
@@ -697,7 +785,7 @@ class C12(core.Check):
         for st, o in zip(case["steps"], (impl or {}).get("obs", [None] * len(case["steps"]))):
             if st[0] == "mv":
                 lid(st[2])
-            if st[0] == "nudge" and isinstance(o, dict) and "to" in o:
+            if st[0] in ("nudge", "tr") and isinstance(o, dict) and "to" in o:
                 lid(o["to"])
         arcs: Dict[str, str] = {}
         for spec in case["ops"]:
@@ -706,6 +794,8 @@ class C12(core.Check):
         return loc, arcs
 
     def requests(self, case: dict, impl: Any) -> List[str]:
+        if case["kind"] == "prop":
+            return []  # gradings propagated between blocks are outside the model (C01/C02/C04): oracle only
         loc, arcs = self._tables(case, impl)
         toks = []
         seen = set()
@@ -738,9 +828,11 @@ class C12(core.Check):
                     toks.append("add!" + op_fields(case["ops"][members[0]]))
                 else:
                     toks.append("ent@" + "@".join(op_fields(case["ops"][i]) for i in members))
-            elif st[0] == "nudge":
+            elif st[0] in ("nudge", "tr"):
                 to = loc[fmt(o["to"])] if isinstance(o, dict) and "to" in o else 0
                 toks.append(f"mv!{st[1]}!{to}")
+            elif st[0] == "mvto":
+                toks.append(f"mvto!{st[1]}!{st[2]}")
             elif st[0] == "del":
                 toks.append(f"del!{st[1]}")
             elif st[0] in ("asm", "clr", "bkp", "wr"):
@@ -829,7 +921,7 @@ class C12(core.Check):
             if st[0] == "bkp" and isinstance(o, dict):
                 if "err" in o and (shadow[n - 1]["assembled"] if n else False):
                     out.append({"site": "Mesh.backport:raises-on-assembled-mesh", "what": f"call {n}: {o['err']}"})
-                if "ok" in o and not sh["weird_before"] and not sh["merges"]:
+                if "ok" in o and not sh["weird_before"]:
                     for i, want in sh["pos"].items():
                         got = o["ok"].get(str(i))
                         if got is None:
@@ -890,6 +982,15 @@ class C12(core.Check):
                         "what": f"call {n}: geometry written {parsed['geometry']}, added through the mesh {sh['geometry']} (calls since the last write: {since})",
                         "observed": parsed["geometry"],
                         "expected": sh["geometry"],
+                    }
+                )
+            if sh["dflt"] is not None and parsed["default"] != sh["dflt"]:
+                out.append(
+                    {
+                        "site": "PatchList.set_default:default-patch-not-written",
+                        "what": f"call {n}: set_default_patch{tuple(sh['dflt'])} was called, defaultPatch in the file: {parsed['default']}",
+                        "observed": parsed["default"],
+                        "expected": sh["dflt"],
                     }
                 )
             written_names = [p["name"] for p in parsed["patches"]]
@@ -974,7 +1075,7 @@ class C12(core.Check):
             key += ":groups"
         if case.get("frame", [[0, 0, 0], 1.0])[1] != 1.0:
             key += ":far"
-        for flag in ("bkp", "clr", "del", "mv", "nudge", "mrg", "geo"):
+        for flag in ("bkp", "clr", "del", "mv", "nudge", "mvto", "mrg", "geo"):
             if flag in calls:
                 key += ":" + flag
         return key
